@@ -103,6 +103,7 @@ inductive CItem where
   | queryEvent (subject : String)
   | unsubscribe (rs : Nat) (sub : SubRef)
   | accessDone (sub : SubRef) (a : Access) (throttle : Option Nat)
+  | httpAccessDone (sub : SubRef) (h : Nat) (a : Access) (mstatus : Option Int)
   | callDone (k : ReqK) (a : CallAns)
   | resetResource (throttle : Option Nat)
   | resetAccess (throttle : Option Nat)
@@ -168,6 +169,7 @@ inductive RCont where
   | resource (req : Nat) (sub : Nat)
   | addEvent (parent : Nat) (idx : Int) (v : Val) (child : Nat)
   | changeEvent (parent : Nat) (counter : Nat) (subs : List Nat) (changed : List (String × Option Val))
+  | httpGet (h : Nat) (sub : Nat) (mstatus : Option Int)
   deriving Repr, Inhabited
 
 structure Rcb where
@@ -211,6 +213,8 @@ inductive KItem where
   | accessAnswer (uid : Nat) (a : Access)
   | callAnswer (k : ReqK) (a : CallAns)
   | tokenEvent (token : String) (tid : String)
+  | httpGet (h : Nat) (rid : String)
+  | httpAccess (h : Nat) (uid : Nat) (a : Access) (mstatus : Option Int)
   | tokenReset (tids : List String) (subject : String)
   | dispose
   deriving Repr, Inhabited
@@ -245,6 +249,7 @@ inductive Job where
 inductive MqK where
   | get (entry : Nat) (rs : Nat) (reset : Bool) (th : Option Nat)
   | access (entry : Nat) (sub : SubRef) (th : Option Nat)
+  | httpAccess (entry : Nat) (sub : SubRef) (h : Nat)
   | call (entry : Nat) (k : ReqK)
   | query (entry : Nat) (rs : Nat)
   | tokenAuth
@@ -269,6 +274,7 @@ structure Gw where
   refThrottle : Int := 0
   resetThrottle : Int := 0
   ord : Nat := 0                              -- iteration order parameter for map ranges
+  flat : Bool := false                        -- apiEncoding jsonflat
   out : Array String := #[]
   panic : Option String := none
   deriving Inhabited
